@@ -1862,3 +1862,7 @@ V("c19-graph-type-guard-inverted", "C19", "fire", SE, "        if not isinstance
 V("c19-data-type-guard-inverted", "C19", "fire", SE, "        if not isinstance(data, list):\n            raise TypeError(_DATA_TYPE_ERROR)", "        if isinstance(data, list):\n            raise TypeError(_DATA_TYPE_ERROR)", rule="CONTRACT.data-not-a-list", what="every list of samples is rejected")
 V("c19-n-length-guard-inverted", "C19", "fire", SE, "            if len(n) != self.e:\n                raise ValueError(_N_TYPE_ERROR)", "            if len(n) == self.e:\n                raise ValueError(_N_TYPE_ERROR)", rule="CONTRACT.n-list-wrong-length", what="a list n of the right length is rejected, any other accepted")
 V("c19-sample-ndim-guard-inverted", "C19", "fire", SE, "                elif sample.ndim != 2:\n                    raise ValueError(_DATA_TYPE_ERROR)", "                elif sample.ndim == 2:\n                    raise ValueError(_DATA_TYPE_ERROR)", rule="CONTRACT.sample-not-2d", what="two-dimensional samples rejected")
+
+# ------------------------------------------------------------------------------- round 13 inspired (C16: the integer buffer spelled np.zeros(G.shape, dtype=int))
+V("c16-induced-int-buffer-shape", "C16", "fire", UT, "    subgraph = np.zeros_like(G)\n", "    subgraph = np.zeros(G.shape, dtype=int)\n", rule="DTYPE.narrow-target", what="real weights truncated in the induced subgraph")
+V("c16-induced-float-buffer-shape", "C16", "undecided", UT, "    subgraph = np.zeros_like(G)\n", "    subgraph = np.zeros(G.shape, dtype=G.dtype)\n", what="same dtype as the input: correct")
